@@ -73,10 +73,20 @@ def gen_http():
     key_high = _high(pk, lambda ch: ch + "=")
     tv_cls = _cls(ptv, lambda ch: ch)
     tv_high = _high(ptv, lambda ch: ch)
-    cs1 = _cls(csv, lambda ch: ch + "''x")
-    cs2 = _cls(csv, lambda ch: "'" + ch + "'x")
-    cs3 = _cls(csv, lambda ch: "''" + ch)
-    cs_high = _high(csv, lambda ch: ch + "''x") or _high(csv, lambda ch: "'" + ch + "'x") or _high(csv, lambda ch: "''" + ch)
+    def grp(build, want):
+        def ok(ch):
+            m = csv.fullmatch(build(ch))
+            return bool(m) and m.groups() == want(ch)
+
+        return ok
+
+    g1 = grp(lambda ch: ch + "''x", lambda ch: (ch, "x"))
+    g2 = grp(lambda ch: "'" + ch + "'x", lambda ch: ("", "x"))
+    g3 = grp(lambda ch: "''" + ch, lambda ch: ("", ch))
+    cs1 = [g1(chr(c)) for c in range(256)]
+    cs2 = [g2(chr(c)) for c in range(256)]
+    cs3 = [g3(chr(c)) for c in range(256)]
+    cs_high = any(g(chr(c)) for g in (g1, g2, g3) for c in list(range(256, 0x3000)) + [0xFF10, 0xFF21, 0x1D7CE, 0x0660, 0x10FFFF])
     cont_d = _cls(cont, lambda ch: "*" + ch)
     cont_high = _high(cont, lambda ch: "*" + ch)
     pint_d = _cls(pint, lambda ch: ch)
@@ -122,10 +132,7 @@ def gen_http():
     # str.title() on one two-character probe per code point: is chr(c) treated as cased (the next
     # letter gets lower-cased after it)?
     title_cased = [("%sA" % chr(c)).title()[-1] == "a" for c in range(256)]
-    title_first = []
-    for c in range(256):
-        t = chr(c).title()
-        title_first.append(ord(t) if len(t) == 1 else 0x110000)
+    title_first = [[ord(x) for x in chr(c).title()] for c in range(256)]
     decimal = [chr(c).isdecimal() for c in range(256)]
 
     # names the live http_date writes (email.utils tables), observed through the public function
@@ -197,8 +204,8 @@ def lowerTbl : List Nat := {lean_list([str(x) for x in lower])}
 def upperTbl : List Nat := {lean_list([str(x) for x in upper1])}
 /-- is chr(c) a cased character for `str.title()` (the following letter is lower-cased)? -/
 def titleCased : List Bool := {bools(title_cased)}
-/-- `ord(chr(c).title())` (0x110000 = not one character) -/
-def titleTbl : List Nat := {lean_list([str(x) for x in title_first])}
+/-- code points of `chr(c).title()` -/
+def titleTbl : List (List Nat) := {lean_list(["[" + ", ".join(str(x) for x in r) + "]" for r in title_first])}
 /-- `chr(c).isdecimal()` (digits accepted by `int()`) -/
 def decimalTbl : List Bool := {bools(decimal)}
 
